@@ -175,3 +175,28 @@ Proof.
   intros E Z Hd Hr Hc Hp. rewrite (preprocess_output_is_parsed pf (SPrim p) v v' d e0 E).
   cbn [sem data_val]. unfold sem_prim. rewrite Z, Hd, Hr, Hc, Hp. rewrite then_pts_nil. cbn [fst snd]. now rewrite app_nil_r.
 Qed.
+
+(** a pointer whose input is there hands that input on as it is: the pointed-to schema decides for itself.  A
+    Preprocess behind the pointer therefore decides absence again, on its own output, by the wrapped schema's
+    modifiers - the pointer's verdict "present" is not inherited by what lies behind it *)
+Theorem ptr_present_hands_input_on e nn pz v d e0 : parse_zero v = false ->
+  sem Parse (SPtr e nn pz) (DVal v) d e0 =
+  (fst (sem Parse e (DVal v) (match d with DPtr (Some y) => y | _ => pz end) e0),
+   DPtr (Some (snd (sem Parse e (DVal v) (match d with DPtr (Some y) => y | _ => pz end) e0)))).
+Proof.
+  intros Z. cbn [sem]. rewrite Z.
+  assert (H : match match d with DPtr (Some y) => Some y | _ => None end with Some y => y | None => pz end
+              = match d with DPtr (Some y) => y | _ => pz end).
+  { destruct d as [| | | | | | [y|] | |]; reflexivity. }
+  rewrite H. destruct (sem Parse e (DVal v) _ e0) as [l y1]. reflexivity.
+Qed.
+
+Corollary preprocess_blank_output_behind_pointer pf p nn pz v v' d e0 rt :
+  parse_zero v = false -> pre_parse pf v = Some (inl v') -> parse_zero v' = true ->
+  p_def p = None -> p_req p = Some rt -> p_catch p = None -> p_pts p = [] ->
+  fst (sem Parse (SPtr (SPre pf (SPrim p)) nn pz) (DVal v) d e0)
+  = (rcall (pre_id pf) CbPre None ++ [RI [] (fun q => mk_test_issue q (dtype_of (p_kind p)) rt)])%list.
+Proof.
+  intros Z E Z' Hd Hr Hc Hp. rewrite (ptr_present_hands_input_on _ nn pz v d e0 Z). cbn [fst].
+  now rewrite (preprocess_blank_output_is_absent pf p v v' _ e0 rt E Z' Hd Hr Hc Hp).
+Qed.
